@@ -2,7 +2,7 @@
 import io
 import itertools
 
-from props.common import enc_str, enc_list, Reader, environ
+from props.common import enc_str, enc_list, Reader, environ, FragStream
 
 ID = 'C06'
 COQ_MODEL = 'model.Multipart'
@@ -14,7 +14,9 @@ RULE = ('cases = corpus (F6/F7 witnesses, every single cut of 6 adversarial bodi
         'random: bodies from the grammar [CRLF] --B (CRLF hdrs CRLFCRLF data)* CRLF--B-- epilogue with 0-4 parts, '
         'boundaries incl. "-", "--", "abab", data over {CR, LF, "-", delimiter prefixes, other}, all kinds of prefixes, '
         'cut into chunks (single/double/random cuts, byte-at-a-time, k-regular, empty chunks) fed to '
-        'MultipartMarkup.parse, or sent through WSGI with max_memfile_size as the chunking; plus a malformed stream '
+        'MultipartMarkup.parse, or sent through WSGI with max_memfile_size as the chunking, or POSTed through '
+        'Ombott.__call__ with wsgi.input a fragmenting stream (schedules of short reads incl. 1-byte reads and a first '
+        'read shorter than the opening boundary line) x max_memfile_size below/at/above the body size; plus a malformed stream '
         '(mutations, random bytes over the small alphabet, CR in the boundary).  thorough adds every single and double '
         'cut of every prefix of the adversarial bodies (explicit cases for short bodies, in-oracle sweeps for all). '
         'non-trivial = at least two non-empty chunks and at least one cut falls inside a delimiter, a CRLFCRLF, the '
@@ -25,7 +27,11 @@ TRUSTED = ['modelled, not verified: the header-end regular expression end_header
            'MatchTail.match_tail (slen <= len) is discharged at its two call sites rather than modelled',
            'no section hypotheses: every C06 theorem is closed; wf_prefix is the executable MultipartRef.wf_prefixb, '
            'validated on every run against an independent Python statement (tools/props/C06.py: py_wf)',
-           'Request.forms/files under varied max_memfile_size: correspondence and oracle only (no C06 theorem)']
+           'Request.forms/files under varied max_memfile_size: correspondence and oracle only (no C06 theorem)',
+           'via=wsgi_frag: the chunk list given to the model is computed by the harness (tools/props/C06.py iter_parts) '
+           'from the read schedule, following _iter_body as modelled and proved in C04 (coq/model/Body.v cl_loop over '
+           'Stream.v: each read asks min(rest, buff) and receives min(asked, k+1, remaining)); it is not observed from the '
+           'implementation, so a _body_read that feeds other parts to the parser shows up as a disagreement']
 ASSUMPTIONS = ['CR does not occur in the boundary (the code rejects such a boundary with InvalidBoundaryError)',
                'split independence is claimed for wf_prefix bodies (coq/model/MultipartRef.v: wf_prefixb); for other '
                'inputs the parser is knowingly split dependent (C12 covers them: no server fault)']
@@ -166,6 +172,31 @@ def mk_wsgi(B, body, buf, wf=None, label='wsgi'):
     return mk(B, [list(body[i:i + buf]) for i in range(0, len(body), buf)], via='wsgi', wf=wf, buf=buf, label=label)
 
 
+def iter_parts(body, buf, sched):
+    """the parts _iter_body yields (and _body_read feeds to markup.parse) when wsgi.input is a FragStream with
+    this schedule: each read asks for min(rest, buf) bytes and gets min(asked, k+1, remaining)"""
+    sched = list(sched)
+    pos, rest, parts = 0, len(body), []
+    while rest > 0:
+        k = min(rest, buf)
+        if sched:
+            k = min(k, sched.pop(0) + 1)
+        part = body[pos:pos + k]
+        if not part:
+            break
+        parts.append(list(part))
+        pos += len(part)
+        rest -= len(part)
+    return parts
+
+
+def mk_frag(B, body, buf, sched, wf=None, label='wsgi-frag'):
+    buf = max(1, buf)
+    c = mk(B, iter_parts(body, buf, sched), via='wsgi_frag', wf=wf, buf=buf, label=label)
+    c['sched'] = list(sched)
+    return c
+
+
 def corpus():
     out = []
     B, body = ADVERSARIAL[0]
@@ -193,6 +224,16 @@ def corpus():
         out.append(mk(sb, [list(SUITE_BODY[i:i + k]) for i in range(0, len(SUITE_BODY), k)], wf=True, label='suite body, k=%d' % k))
     for buf in (1, 40, 41, 42, 43, 44, 100, 150, 333, 376, 377, 378, 1000):
         out.append(mk_wsgi(sb, SUITE_BODY, buf, wf=True))
+    # Request.forms/files through Ombott.__call__, body delivered by a fragmenting stream (short reads),
+    # max_memfile_size below and above the body size
+    n = len(SUITE_BODY)
+    for buf in (50, n - 1, n, n + 1, 102400):
+        for sched in ([], [10], [0] * n, [3, 7, 100], [39, 0, 1, 41], [n - 2], [n // 2] * 3):
+            out.append(mk_frag(sb, SUITE_BODY, buf, sched, wf=True))
+    wB, wbody = WSGI_BODY
+    for buf in (7, len(wbody), len(wbody) + 100):
+        for sched in ([0] * len(wbody), [2], [4, 4, 4, 4, 200], [len(wbody) - 4]):
+            out.append(mk_frag(wB, wbody, buf, sched, wf=True))
     for B, body in ADVERSARIAL[:6] + ADVERSARIAL[7:]:
         for i in range(0, len(body) + 1):
             out.append(mk(B, cut(body, [i]), wf=True, label='single cut'))
@@ -320,7 +361,16 @@ def gen(rng, n):
             B, body, _ = gen_body(rng, real=True)
             if rng.random() < 0.3:
                 body = body[:rng.randrange(0, len(body) + 1)]
-            yield mk_wsgi(B, body, rng.randrange(1, len(body) + 3), wf=True)
+            if rng.random() < 0.5:
+                yield mk_wsgi(B, body, rng.randrange(1, len(body) + 3), wf=True)
+            else:
+                n = len(body)
+                buf = rng.choice([rng.randrange(1, n + 2), n, n + 1, n + rng.randrange(2, 60), 102400])
+                if rng.random() < 0.25:
+                    sched = [0] * n
+                else:
+                    sched = [rng.choice([0, 0, 1, 2, 5, len(B) + 1, 20, 60, 1000]) for _ in range(rng.randrange(1, 30))]
+                yield mk_frag(B, body, buf, sched, wf=True)
         elif r < 0.9:
             B, body, _ = gen_body(rng)
             body = mutate(rng, body)
@@ -364,6 +414,14 @@ def thorough():
     for B, body in [ADVERSARIAL[0], WSGI_BODY]:
         for buf in range(1, len(body) + 2):
             yield mk_wsgi(B, body, buf, wf=True)
+    # fragmenting stream: every first-read length x buffer below / at / above the body size
+    for B, body in [WSGI_BODY, (sb, SUITE_BODY)]:
+        n = len(body)
+        for buf in (n // 3, n - 1, n, n + 1, 102400):
+            for k in range(0, n):
+                yield mk_frag(B, body, buf, [k], wf=True)
+            for k in (0, 1, 2, 5):
+                yield mk_frag(B, body, buf, [k] * n, wf=True)
 
 
 # ------------------------------------------------------------------ implementation side
@@ -433,6 +491,57 @@ def wsgi_forms(B, body, buf):
     return res
 
 
+def wsgi_call(B, body, buf, sched):
+    """POST through Ombott.__call__; wsgi.input delivers the body with short reads per the schedule"""
+    from ombott import Ombott
+    app = Ombott(dict(max_memfile_size=buf, max_body_size=None))
+    seen = {}
+
+    def canon_val(v):
+        if isinstance(v, list):
+            return [canon_val(x) for x in v]
+        if hasattr(v, 'file'):
+            v.file.seek(0)
+            return ['upload', v.raw_filename, list(v.file.read())]
+        return v
+
+    @app.post('/')
+    def handler():
+        rq = app.request
+        try:
+            b = rq.body
+            mk_ = getattr(b, 'ombott_markup', None)
+            seen['markup'] = None if mk_ is None else dict(
+                secs=[[0 if nm == 'headers' else 1, se[0], se[1]] for nm, se in mk_.markups], err=err_name(mk_.error))
+        except Exception as e:
+            seen['markup'] = dict(secs=[], err='body:' + type(e).__name__)
+            return 'x'
+        try:
+            forms, files = rq.forms, rq.files
+            seen['forms'] = sorted([k, canon_val(v)] for k, v in forms.items())
+            seen['files'] = sorted([k, canon_val(v)] for k, v in files.items())
+            seen['post'] = 'ok'
+        except Exception as e:
+            code = getattr(e, 'status_code', None)
+            if type(e).__name__ == 'BodySizeError' or code == 413:
+                seen['post'] = 'too_large'
+            else:
+                seen['post'] = type(e).__name__ + ('' if code is None else ':%s' % code)
+        return 'x'
+
+    st = FragStream(body, sched)
+    env = environ('POST', '/', **{'wsgi.input': st})
+    env['CONTENT_LENGTH'] = str(len(body))
+    env['CONTENT_TYPE'] = 'multipart/form-data; boundary=' + B.decode('latin1')
+    status = []
+    out = app(env, lambda s_, h_, e_=None: status.append(s_))
+    b''.join(out)
+    if hasattr(out, 'close'):
+        out.close()
+    seen['status'] = status[0][:3] if status else None
+    return seen
+
+
 def sweep(B, body):
     """every single and double cut, byte-at-a-time and k-regular cuts of every prefix; returns deviations"""
     bad = []
@@ -466,6 +575,12 @@ def run_impl(case):
         bad, n_runs = sweep(B, body)
         obs['sweep_bad'] = bad
         obs['sweep_runs'] = n_runs
+    elif case['via'] == 'wsgi_frag':
+        w = wsgi_call(B, body, case['buf'], case['sched'])
+        obs['stream'] = w.pop('markup', None)
+        obs['wsgi'] = w
+        obs['wsgi_one'] = wsgi_call(B, body, max(case['buf'], len(body) + 1), [])
+        obs['wsgi_one'].pop('markup', None)
     else:
         w = wsgi_forms(B, body, case['buf'])
         obs['stream'] = w.pop('markup')
@@ -513,12 +628,13 @@ def oracle(case, obs):
         b = obs['sweep_bad'][0]
         return ('parsing depends on the split: prefix of %d bytes cut as %s gives %s, in one piece %s'
                 % (b['prefix'], [len(c) for c in b['chunks']], b['got'], b['one']))
-    if case['via'] == 'wsgi':
+    if case['via'] in ('wsgi', 'wsgi_frag'):
         w, w1 = obs['wsgi'], obs['wsgi_one']
         if 'too_large' in (w.get('post'), w1.get('post')):
             return None          # the in-memory budget (= buffer size) is exceeded: C13, not the chunking
         if w != w1:
-            return 'Request.forms/files depend on max_memfile_size=%d: %s vs one piece %s' % (case['buf'], w, w1)
+            return ('Request.forms/files depend on how the body is read (max_memfile_size=%d, read schedule %s): %s '
+                    'vs one piece %s' % (case['buf'], str(case.get('sched'))[:60], w, w1))
     return None
 
 
@@ -550,6 +666,17 @@ def classify(case, obs):
 
 def shrink(case):
     ch = case['chunks']
+    if case['via'] == 'wsgi_frag':
+        B, body, sc = bytes(case['boundary']), b''.join(bytes(c) for c in ch), case['sched']
+        for i in range(len(sc)):
+            yield mk_frag(B, body, case['buf'], sc[:i] + sc[i + 1:], wf=case.get('wf'), label=case.get('label', ''))
+        if len(sc) > 1:
+            yield mk_frag(B, body, case['buf'], sc[:1], wf=case.get('wf'), label=case.get('label', ''))
+        for nb in (len(body), len(body) + 1):
+            if nb != case['buf']:
+                yield mk_frag(B, body, nb, sc, wf=case.get('wf'), label=case.get('label', ''))
+        yield dict(case, via='markup')
+        return
     if case['via'] != 'markup':
         yield dict(case, via='markup')
         return
